@@ -246,14 +246,20 @@ impl State {
             if dmin > self.now {
                 self.now = dmin;
             }
-            let was_polling = self.threads[i].is_polling();
-            self.threads[i].st = TS::Ready;
-            self.threads[i].woken = false;
-            if was_polling {
-                self.threads[i].idle_mark = self.progress;
-            } else {
-                self.progress += 1;
-                self.stale_polls = 0;
+            // Half of the time ALL the threads that are due at this instant become ready together, so that they
+            // interleave at their schedule points (a timer handler racing with the event it times out); otherwise
+            // one of them runs until it blocks before the next one is woken (the two serial orders).
+            let all = ties.len() > 1 && self.next_rand() % 2 == 0;
+            for &j in ties.iter().filter(|&&j| all || j == i) {
+                let was_polling = self.threads[j].is_polling();
+                self.threads[j].st = TS::Ready;
+                self.threads[j].woken = false;
+                if was_polling {
+                    self.threads[j].idle_mark = self.progress;
+                } else {
+                    self.progress += 1;
+                    self.stale_polls = 0;
+                }
             }
         }
     }
